@@ -40,6 +40,8 @@ impl Hosts {
 fn parse_line(line: &str) -> Result<Option<(IpAddr, HashSet<DomainName>)>, Error> {
     let mut state = State::SkipToAddress;
     let mut address = IpAddr::V4(Ipv4Addr::LOCALHOST);
+    // a malformed address only matters if the line goes on to map names to it
+    let mut bad_address: Option<String> = None;
     let mut new_names = HashSet::new();
 
     for (i, octet) in line.char_indices() {
@@ -55,6 +57,9 @@ fn parse_line(line: &str) -> Result<Option<(IpAddr, HashSet<DomainName>)>, Error
         state = match (&state, octet) {
             // a comment ends the name being read
             (State::ReadingName { start }, '#') => {
+                if let Some(address) = bad_address {
+                    return Err(Error::CouldNotParseAddress { address });
+                }
                 let name_str = &line[*start..i];
                 match DomainName::from_relative_dotted_string(&DomainName::root_domain(), name_str)
                 {
@@ -80,11 +85,7 @@ fn parse_line(line: &str) -> Result<Option<(IpAddr, HashSet<DomainName>)>, Error
                 let addr_str = &line[*start..i];
                 match IpAddr::from_str(addr_str) {
                     Ok(addr) => address = addr,
-                    Err(_) => {
-                        return Err(Error::CouldNotParseAddress {
-                            address: addr_str.into(),
-                        })
-                    }
+                    Err(_) => bad_address = Some(addr_str.into()),
                 }
                 State::SkipToName
             }
@@ -94,6 +95,9 @@ fn parse_line(line: &str) -> Result<Option<(IpAddr, HashSet<DomainName>)>, Error
             (State::SkipToName, _) => State::ReadingName { start: i },
 
             (State::ReadingName { start }, c) if c.is_whitespace() => {
+                if let Some(address) = bad_address {
+                    return Err(Error::CouldNotParseAddress { address });
+                }
                 let name_str = &line[*start..i];
                 match DomainName::from_relative_dotted_string(&DomainName::root_domain(), name_str)
                 {
@@ -113,6 +117,9 @@ fn parse_line(line: &str) -> Result<Option<(IpAddr, HashSet<DomainName>)>, Error
     }
 
     if let State::ReadingName { start } = state {
+        if let Some(address) = bad_address {
+            return Err(Error::CouldNotParseAddress { address });
+        }
         let name_str = &line[start..];
         match DomainName::from_relative_dotted_string(&DomainName::root_domain(), name_str) {
             Some(name) => {
